@@ -221,27 +221,37 @@ class FileModel:
         self.b = b
 
 
+def byte_at(z, i):
+    """ghost: i-th byte of a bytes value (0 <= i < len)"""
+    return UF('byte_at', BYTES, INT, INT)(z, i)
+
+
 def write_part_setup(b):
+    """File model (assumed io semantics, audited): a regular file is (bytes: Array Int->Int, length)
+    with a position.  truncate(n) cuts or zero-extends; write(d) at pos <= len overwrites/extends."""
     me = shared.repo_self(b, props=False, cache=False)
     data = b.sym('data', BYTES)
     off = b.sym('offset', INT)
     b.assume(off.z >= 0)
     exists = sym.const(BOOL, 'target_exists')
-    old = sym.const(BYTES, 'old_content')
-    b.exists, b.old, b.data, b.off = exists, old, data, off
-    b.ghost('content', old)
+    old_arr = z3.Const('old_bytes', z3.ArraySort(z3.IntSort(), z3.IntSort()))
+    old_len = z3.Int('old_len')
+    b.assume(old_len >= 0)
+    b.exists, b.old_arr, b.old_len, b.data, b.off = exists, old_arr, old_len, data, off
+    b.st.ghost['f_arr'] = old_arr
+    b.st.ghost['f_len'] = old_len
     b.ghost('pos', SV(INT, z3.IntVal(0)))
     b.ghost('exists', exists)
     FOBJ = models.opaque_type('RWFile')
+    i = z3.Int('fm_i')
 
     def seek(interp, st, args, kwargs):
-        _, offset = args[0], args[1]
+        offset = args[1]
         whence = args[2] if len(args) > 2 else 0
-        n = z3.Length(st.ghost['content'].z)
         if whence == 0:
             newpos = sym.lift(offset, INT).z
         elif whence == 2:
-            newpos = n + sym.lift(offset, INT).z
+            newpos = st.ghost['f_len'] + sym.lift(offset, INT).z
         else:
             raise sym.Unsupported('seek whence')
         st.ghost['pos'] = SV(INT, newpos)
@@ -250,28 +260,29 @@ def write_part_setup(b):
 
     def truncate(interp, st, args, kwargs):
         size = sym.lift(args[1], INT).z
-        c = st.ghost['content'].z
-        n = z3.Length(c)
-        new = z3.If(size <= n, z3.SubString(c, 0, size), z3.Concat(c, zeros(size - n)))
-        st.assume(z3.Implies(size > n, z3.Length(zeros(size - n)) == size - n))
-        st.ghost['content'] = SV(BYTES, new)
+        arr, n = st.ghost['f_arr'], st.ghost['f_len']
+        interp.oblige(st, 'io.truncate_size_nonneg', size >= 0, tag='helper')
+        st.ghost['f_arr'] = z3.Lambda([i], z3.If(i < n, z3.Select(arr, i), 0))
+        st.ghost['f_len'] = size
         st.emit('truncate', size=SV(INT, size))
         yield st, SV(INT, size)
 
     def write(interp, st, args, kwargs):
         d = sym.lift(args[1], BYTES).z
-        c, pos = st.ghost['content'].z, st.ghost['pos'].z
-        n, ld = z3.Length(c), z3.Length(d)
+        arr, n, pos = st.ghost['f_arr'], st.ghost['f_len'], st.ghost['pos'].z
+        ld = z3.Length(d)
         # writing at pos <= len: overwrite/extend (pos > len would zero-fill: excluded by an obligation)
-        interp.oblige(st, 'io.write_within_or_at_end', pos <= n, tag='helper')
-        new = z3.Concat(z3.SubString(c, 0, pos), d, z3.SubString(c, pos + ld, n - (pos + ld)))
-        st.ghost['content'] = SV(BYTES, new)
+        interp.oblige(st, 'io.write_within_or_at_end', z3.And(0 <= pos, pos <= n), tag='helper')
+        st.ghost['f_arr'] = z3.Lambda([i], z3.If(z3.And(pos <= i, i < pos + ld), byte_at(d, i - pos), z3.Select(arr, i)))
+        st.ghost['f_len'] = z3.If(pos + ld > n, pos + ld, n)
         st.ghost['pos'] = SV(INT, pos + ld)
         st.emit('write', data=args[1], at=SV(INT, pos))
         yield st, SV(INT, ld)
 
     FOBJ.attrs = {'seek': MethodModel('seek', seek), 'truncate': MethodModel('truncate', truncate),
                   'write': MethodModel('write', write)}
+    FOBJ.cm_enter = lambda i_, s2, cm: iter([(s2, cm)])
+    FOBJ.cm_exit = lambda i_, s2, cm, out: iter([(s2, out)])
 
     def open_(interp, st, args, kwargs):
         mode = args[1]
@@ -280,34 +291,21 @@ def write_part_setup(b):
                 if ex:
                     s.ghost['pos'] = SV(INT, z3.IntVal(0))
                     s.emit('open', mode=mode)
-                    yield s, CM('rwfile', value=sym.fresh(FOBJ, 'f'))
+                    yield s, sym.fresh(FOBJ, 'f')
                 else:
                     yield s, Raised(Exc('FileNotFoundError'))
         elif mode == 'wb':
-            st.ghost['content'] = SV(BYTES, z3.StringVal(''))
+            st.ghost['f_len'] = z3.IntVal(0)
             st.ghost['pos'] = SV(INT, z3.IntVal(0))
             st.ghost['exists'] = SV(BOOL, z3.BoolVal(True))
             st.emit('open', mode=mode)
-            yield st, CM('rwfile', value=sym.fresh(FOBJ, 'f'))
+            yield st, sym.fresh(FOBJ, 'f')
         else:
             raise sym.Unsupported(f'open mode {mode}')
 
-    class OpenedCM(CM):
-        pass
-
-    # `file = path.open(...)` then `with file:` -> the value bound is the CM; methods are called on it
-    def open_returning_file(interp, st, args, kwargs):
-        for s, v in open_(interp, st, args, kwargs):
-            if isinstance(v, Raised):
-                yield s, v
-            else:
-                f = v.value
-                FOBJ.cm_enter = lambda i, s2, cm: iter([(s2, cm)])
-                FOBJ.cm_exit = lambda i, s2, cm, out: iter([(s2, out)])
-                yield s, f
-
-    PATHT.attrs = {'open': MethodModel('open', open_returning_file),
-                   'parent': Obj('parent', mkdir=Model('mkdir', lambda i, s, a, k: iter([(s, None)])))}
+    PATHT.attrs = dict(getattr(PATHT, 'attrs', {}))
+    PATHT.attrs.update({'open': MethodModel('open', open_),
+                        'parent': Obj('parent', mkdir=Model('mkdir', lambda i_, s, a, k: iter([(s, None)])))})
     b.sym('path', PATHT)
     b.bind('io', Obj('io', SEEK_END=2))
 
@@ -315,23 +313,24 @@ def write_part_setup(b):
 def write_part_post(prop):
     def post(res):
         b = res.builder
-        old, data, off = b.old.z, b.data.z, b.off.z
+        data, off = b.data.z, b.off.z
         ld = z3.Length(data)
+        i = z3.Int('wp_i')
         for p in res.paths:
             sig = ','.join(e.data.get('mode', '') for e in p.events('open')) + '->' + p.kind
             if p.kind not in ('normal', 'return'):
                 res.oblige(p, f'{prop}.write.total[{sig}]', z3.BoolVal(False))
                 continue
-            new = p.st.ghost['content'].z
-            base = z3.If(b.exists.z, old, z3.StringVal(''))
-            nb = z3.Length(base)
-            # frame + effect: new = base[:off] ++ data ++ base[off+len:], zero-extended up to off
-            res.oblige(p, f'{prop}.write.data_lands_at_offset[{sig}]', z3.SubString(new, off, ld) == data)
-            res.oblige(p, f'{prop}.write.length[{sig}]', z3.Length(new) == z3.If(nb > off + ld, nb, off + ld))
-            res.oblige(p, f'{prop}.write.prefix_preserved[{sig}]', z3.Implies(
-                off <= nb, z3.SubString(new, 0, off) == z3.SubString(base, 0, off)))
-            res.oblige(p, f'{prop}.write.suffix_preserved[{sig}]', z3.Implies(
-                nb > off + ld, z3.SubString(new, off + ld, nb - off - ld) == z3.SubString(base, off + ld, nb - off - ld)))
+            arr, n = p.st.ghost['f_arr'], p.st.ghost['f_len']
+            nb = z3.If(b.exists.z, b.old_len, 0)
+            old = lambda ii: z3.If(z3.And(b.exists.z, ii < b.old_len), z3.Select(b.old_arr, ii), 0)
+            # effect + frame, pointwise: the data lands at [off, off+len), every other byte below the
+            # old length is preserved, a gap up to `off` is zero-filled, length = max(old length, off+len)
+            res.oblige(p, f'{prop}.write.data_lands_at_offset[{sig}]', z3.ForAll([i], z3.Implies(
+                z3.And(off <= i, i < off + ld), z3.Select(arr, i) == byte_at(data, i - off))))
+            res.oblige(p, f'{prop}.write.length[{sig}]', n == z3.If(nb > off + ld, nb, off + ld))
+            res.oblige(p, f'{prop}.write.other_bytes_preserved[{sig}]', z3.ForAll([i], z3.Implies(
+                z3.And(0 <= i, i < n, z3.Or(i < off, i >= off + ld)), z3.Select(arr, i) == old(i))))
     return post
 
 
@@ -616,3 +615,106 @@ def plan_unit(prop):
     u = Unit(f'{prop}.restore_plan', REPO_PY, 'Repository.restore', setup, plan_post(prop), loops=loops,
              stmt='For#1', local_types={'digests': Set(BYTES)}, prop=prop)
     return u
+
+
+# ------------------------------------------------------------------ _write_chunk_ref
+LOCKT = models.opaque_type('Lock')
+
+
+def _lock_enter(interp, st, cm):
+    st.emit('acquire', lock=cm)
+    st.locks_held = st.locks_held + (('flock', cm.z),)
+    yield st, cm
+
+
+def _lock_exit(interp, st, cm, out):
+    st.emit('release', lock=cm)
+    st.locks_held = tuple(x for x in st.locks_held if not (isinstance(x, tuple) and x[1].eq(cm.z)))
+    yield st, out
+
+
+LOCKT.cm_enter = _lock_enter
+LOCKT.cm_exit = _lock_exit
+FLOCKS = sym.DictC(PATHT, LOCKT)
+REFCOUNTS = sym.DictC(PATHT, INT)
+
+
+def write_ref_setup(b):
+    me = shared.repo_self(b, props=False, cache=False)
+    b.me = me
+    ref = b.sym('ref', REF)
+    contents = b.sym('contents', BYTES)
+    b.ref('files_metadata', sym.DictC(STR, FMETA))
+    b.ref('flocks', FLOCKS)
+    b.ref('flocks_refcounts', REFCOUNTS)
+    b.bind('glock', models.lock_cm('glock'))
+    for c in (FLOCKS, REFCOUNTS):
+        c.guarded_by = 'glock'
+    sym.DictC(STR, FMETA).guarded_by = None
+
+    def lock_ctor(interp, st, args, kwargs):
+        yield st, sym.fresh(LOCKT, 'newlock')
+
+    b.bind('threading', Obj('threading', Lock=Model('Lock', lock_ctor)))
+
+    def write_part(interp, st, args, kwargs):
+        st.emit('write_file_part', path=args[0], data=args[1], offset=args[2])
+        fail = st.copy()
+        yield fail, Raised(Exc('AnyError'))
+        yield st, None
+
+    me._attrs['_write_file_part'] = Model('_write_file_part', write_part)
+    b.ref_, b.contents = ref, contents
+    # refcount invariant (helper): a lock exists iff its refcount is present and positive
+    h = b.st.heap
+    fl, rc = b.st.lookup('flocks'), b.st.lookup('flocks_refcounts')
+    p = z3.Const('wr_p', PATHT.sort())
+    b.assume(z3.ForAll([p], z3.Select(h.read(FLOCKS, 'has', fl.z), p) == z3.Select(h.read(REFCOUNTS, 'has', rc.z), p)))
+    b.assume(z3.ForAll([p], z3.Implies(z3.Select(h.read(REFCOUNTS, 'has', rc.z), p), z3.Select(h.read(REFCOUNTS, 'val', rc.z), p) >= 1)))
+    # the planner only produces refs with non-negative sizes/offsets (C01.plan + C01.done.attribution)
+    b.assume(z3.And(REF.proj(ref.z, 1) >= 0, REF.proj(ref.z, 2) >= 0, REF.proj(ref.z, 3) >= 0))
+
+
+def write_ref_post(prop):
+    def post(res):
+        b = res.builder
+        ref, c = b.ref_.z, b.contents.z
+        fpath, size, foff, coff = (REF.proj(ref, i) for i in range(4))
+        h0 = b.st.heap
+        fm = b.st.lookup('files_metadata')
+        dst = FMETA.proj(z3.Select(h0.read(sym.DictC(STR, FMETA), 'val', fm.z), fpath), 0)
+        nw = 0
+        for p in res.paths:
+            ws = p.events('write_file_part')
+            sig = f'{len(ws)}->' + p.kind + (':' + p.value.cls if p.kind == 'raise' else '')
+            if p.kind in ('normal', 'return'):
+                res.oblige(p, f'{prop}.write_ref.exactly_one_write[{sig}]', z3.BoolVal(len(ws) == 1))
+            for e in ws:
+                nw += 1
+                pc = p.pc_at(e)
+                # C01: the planned slice of THIS chunk lands at the planned file offset of the planned target
+                data = sym.lift(e.data['data'], BYTES).z
+                n = z3.Length(c)
+                res.oblige(pc, f'{prop}.write_ref.slice_offset_target[{sig}]', z3.And(
+                    e.data['path'].z == dst,
+                    sym.lift(e.data['offset'], INT).z == foff,
+                    z3.Implies(coff + size <= n, data == z3.SubString(c, coff, size))))
+                # C09.restore.file_mutex: the write happens under the per-target lock that is registered
+                # for this target, and not under the global lock
+                held = e.data['locks']
+                res.oblige(pc, f'{prop}.write_ref.under_file_lock_only[{sig}]', z3.BoolVal(
+                    any(isinstance(x, tuple) and x[0] == 'flock' for x in held) and 'glock' not in held))
+            # C09.restore.guarded: the refcount tables are only touched under glock
+            bad = [nt for nt in p.notes if nt[0] == 'unguarded']
+            res.oblige(p, f'{prop}.write_ref.tables_guarded_by_glock[{sig}]', z3.BoolVal(not bad), meta={'unguarded': [str(x) for x in bad]})
+            # every acquired lock is released on every path (normal and exceptional)
+            acq = sum(1 for e in p.st.events if e.kind == 'acquire')
+            rel = sum(1 for e in p.st.events if e.kind == 'release')
+            res.oblige(p, f'{prop}.write_ref.locks_released[{sig}]', z3.BoolVal(acq == rel and not p.st.locks_held))
+        res.oblige([], f'{prop}.write_ref.write_sites_checked', z3.BoolVal(nw >= 2))
+    return post
+
+
+def write_ref_unit(prop):
+    return Unit(f'{prop}.write_chunk_ref', REPO_PY, 'Repository.restore._write_chunk_ref', write_ref_setup,
+                write_ref_post(prop), prop=prop)
